@@ -309,12 +309,16 @@ impl<C: Config, Q: Query> Snapshot<C, Q> {
             let callee_node_info =
                 unsafe { engine.get_node_info_unchecked(callee).await };
 
+            // A callee registered by a cyclic read has no observation: the
+            // previous run never saw a value of it (the read unwound the
+            // executor), so there is nothing to compare with.
+            let Some(observation) = forward_edge_observation.0.get(callee)
+            else {
+                return CalleeCheckDecision::Recompute;
+            };
+
             let value_fingerprint_diff = callee_node_info.value_fingerprint()
-                != forward_edge_observation
-                    .0
-                    .get(callee)
-                    .unwrap()
-                    .seen_value_fingerprint;
+                != observation.seen_value_fingerprint;
 
             // if any of the callee's value fingerprint differs, we need to
             // recompute
@@ -326,11 +330,7 @@ impl<C: Config, Q: Query> Snapshot<C, Q> {
             if !kind.is_firewall() {
                 let tfc_fingerprint_diff = callee_node_info
                     .transitive_firewall_callees_fingerprint()
-                    != forward_edge_observation
-                        .0
-                        .get(callee)
-                        .unwrap()
-                        .seen_transitive_firewall_callees_fingerprint;
+                    != observation.seen_transitive_firewall_callees_fingerprint;
 
                 if tfc_fingerprint_diff {
                     repair_transitive_firewall_callees = true;
